@@ -939,19 +939,80 @@ def ddmin(ops, failing):
     return ops
 
 
-def renumber_after_removal(ops):
-    """histories are replayed from scratch; an operation that names a handle which no longer exists
-    is a no-op with outcome 50 on both sides, so removing operations never makes a history invalid"""
-    return ops
+def shrink_disagreement(version, ops, step, budget=24):
+    """smallest history (by ddmin, at most `budget` model evaluations) on which model and implementation
+    still differ.  Histories are replayed from scratch; an operation that names a handle which no longer
+    exists is a no-op with outcome 50 on both sides, so removing operations never makes one invalid."""
+    left = [budget]
 
-
-def shrink_disagreement(version, ops, step):
-    """smallest history (by ddmin) on which model and implementation still differ"""
     def failing(cand):
+        if left[0] <= 0:
+            return False
+        left[0] -= 1
         _, obs = run_history(version, cand)
         mobs, _ = model_observations(version, cand)
         if mobs is None or len(mobs) != len(obs):
             return False          # did not evaluate: not a usable reduction
         return any(a != b for a, b in zip(obs, mobs))
-    small = ddmin(ops[:step + 1], failing)
-    return small
+    return ddmin(ops[:step + 1], failing)
+
+
+def shrink_failure(version, ops, still_fails, budget=200):
+    """ddmin of a history on the implementation side only: still_fails(ops) -> bool"""
+    left = [budget]
+
+    def failing(cand):
+        if left[0] <= 0:
+            return False
+        left[0] -= 1
+        try:
+            return bool(still_fails(cand))
+        except Exception:  # noqa
+            return False
+    return ddmin(list(ops), failing)
+
+
+def report_disagreements(run, version, cases, bad, limit=12):
+    """record model/implementation disagreements; the first one is explained and shrunk"""
+    for n, (idx, step) in enumerate(bad[:limit]):
+        ops = cases[idx][0]
+        data = dict(version=version, step=step, ops=ops[:step + 1])
+        if n < 3:
+            data['first_difference'] = explain(version, ops, step)
+        if n == 0:
+            small = shrink_disagreement(version, ops, step)
+            data['shrunk_ops'] = small
+        run.disagree('heap', **data)
+
+
+class Collector(object):
+    """stands in for a Run while an oracle is re-evaluated on candidate histories during shrinking"""
+
+    def __init__(self):
+        self.failures = []
+
+    def fail(self, kind, what, **data):
+        self.failures.append({'kind': kind, 'what': what, 'data': data})
+
+
+def shrink_oracle_failures(run, oracle_on_history, key_attrs, per_kind=1, budget=150):
+    """replace the history of the first failure of every (kind, key attributes) family by a ddmin-minimal one
+    that still makes the oracle report the same family; oracle_on_history(collector, version, ops)"""
+    done = {}
+    for f in run.failures:
+        d = f['data']
+        fam = (f['kind'],) + tuple(d.get(a) for a in key_attrs)
+        if done.get(fam, 0) >= per_kind or 'ops' not in d:
+            continue
+        done[fam] = done.get(fam, 0) + 1
+        v = d.get('version', '2.5')
+
+        def still(cand, fam=fam, v=v):
+            c = Collector()
+            oracle_on_history(c, v, cand)
+            return any((g['kind'],) + tuple(g['data'].get(a) for a in key_attrs) == fam for g in c.failures)
+        small = shrink_failure(v, d['ops'], still, budget)
+        if small and len(small) < len(d['ops']):
+            d['original_length'] = len(d['ops'])
+            d['ops'] = small
+            d['step'] = len(small) - 1
